@@ -143,16 +143,44 @@ def _invoked(pipe, out=None):
     return out
 
 
+class _NotUnderThisConfig(Exception):
+    pass
+
+
 def check_debug(case):
+    """the caller may have asked scikit-learn for pandas containers globally (set_config / config_context): the instrumented pipeline
+    then still answers what the untouched copy answers, container included.  A pipeline scikit-learn itself cannot run under that
+    configuration is examined under the default one."""
+    if case.get("pandas_config"):
+        import sklearn
+        try:
+            with sklearn.config_context(transform_output="pandas"):
+                return _check_debug(case, True)
+        except _NotUnderThisConfig:
+            pass
+    return _check_debug(case, False)
+
+
+def _check_debug(case, pandas_config):
     pipe = pipegen.build(case["spec"], bool(case.get("subclass")), case.get("cols_kind", "list"))
     data, y = pipegen.make_data(case)
-    facts = dict(schema=case["schema"], predictor=case["predictor"])
-    pipe.fit(data, y)
+    facts = dict(schema=case["schema"], predictor=case["predictor"], pandas_config=pandas_config)
+    try:
+        pipe.fit(data, y)
+    except Exception:  # noqa: BLE001
+        if pandas_config:
+            raise _NotUnderThisConfig()
+        raise
     batches = [data.iloc[:case["batch"]] if hasattr(data, "iloc") else data[:case["batch"]],
                data.iloc[2:] if hasattr(data, "iloc") else data[2:]]
     methods = [m for m in ("predict", "predict_proba", "decision_function", "transform") if hasattr(pipe, m)]
     ref = copy.deepcopy(pipe)
-    expected = {(m, i): getattr(ref, m)(b) for m in methods for i, b in enumerate(batches)}
+    try:
+        expected = {(m, i): getattr(ref, m)(b) for m in methods for i, b in enumerate(batches)}
+    except Exception:  # noqa: BLE001
+        if pandas_config:
+            raise _NotUnderThisConfig()
+        raise
     _hp.alter_pipeline_for_debugging(pipe)
     unrecorded = 0
     if case.get("fail_first") and methods:
@@ -168,6 +196,8 @@ def check_debug(case):
         for m in methods:
             out = getattr(pipe, m)(b)
             require(_eq(out, expected[(m, i)]), "debug:output-changed:" + m, "the altered pipeline answers differently from a copy made before altering", facts)
+            require(isinstance(out, pandas.DataFrame) == isinstance(expected[(m, i)], pandas.DataFrame), "debug:output-container-changed:" + m,
+                    "the altered pipeline returns a %s where the untouched copy returns a %s" % (type(out).__name__, type(expected[(m, i)]).__name__), facts)
             dbg = getattr(pipe, "_debug", None)
             require(dbg is not None and m in dbg.inputs and m in dbg.outputs, "debug:root-not-recorded:" + m, "", facts)
             require(_eq(dbg.inputs[m], b) and _eq(dbg.outputs[m], out), "debug:root-record-wrong:" + m, "the root does not hold its last input/output", facts)
@@ -464,7 +494,8 @@ def _has_remainder(spec):
 def _strategy(tier):
     # one case in four builds its containers from user subclasses of Pipeline / FeatureUnion / ColumnTransformer
     return st.builds(lambda c, f, ck, ff: dict(c, subclass=f, cols_kind=ck, fail_first=ff), pipegen.program(max_depth=3 if tier == "quick" else 4), st.sampled_from([False, False, False, True]),
-                     st.sampled_from(["list", "list", "tuple", "array"]), st.sampled_from([False, False, True]))
+                     st.sampled_from(["list", "list", "tuple", "array"]), st.sampled_from([False, False, True])).flatmap(
+        lambda c: st.sampled_from([False, False, False, True]).map(lambda pc: dict(c, pandas_config=pc)))
 
 
 CLAUSES = [
